@@ -247,7 +247,7 @@ func (p *Program) Where(n *N) string {
 				for _, b := range []struct {
 					l []*N
 					s string
-				}{{x.A, ".block"}, {x.B, ".catch"}, {x.C, ".finally"}} {
+				}{{x.A, ".block"}, {x.B, ".catch"}, {x.C, finallySlot(x)}} {
 					path = append(path, "try"+b.s)
 					if find(b.l, "") {
 						return true
@@ -273,6 +273,14 @@ func (p *Program) Where(n *N) string {
 		}
 	}
 	return strings.Join(parts, "/")
+}
+
+// finallySlot names the finally block of a try statement; "(c)" marks a statement that also has a catch clause.
+func finallySlot(t *N) string {
+	if t.F&HasCatch != 0 {
+		return ".finally(c)"
+	}
+	return ".finally"
 }
 
 // ---- the library of inner generators (interpreted by the model from these very ASTs) ----
